@@ -47,10 +47,54 @@ except Exception as e:
           %% (text, e)); sys.exit(1)
 '''
 
+# CPython (>= 3.11) refuses to convert an int of more than 4300 decimal digits to str (ValueError).  The value of
+# an integer expression is written in failure messages and traces -- when the outcome is reported, outside every
+# handler: a value that cannot be written is an uncaught exception there.  In this module `str(n)` of an int has
+# that limit; elsewhere integers are line numbers, counts and exit codes and `str` is total (DESIGN 2.5).
+INT_STR_LIMIT = 10 ** 4300
+
+
+def _m_str_with_cpython_limit(interp, args, kwargs):
+    from pyvc.values import SInt, wrap
+    from pyvc.interp import PyRaise
+    if args and isinstance(args[0], SInt):
+        n = args[0]
+        if not interp.st.fork(wrap(_z3.And(-INT_STR_LIMIT < n.t, n.t < INT_STR_LIMIT))):
+            raise PyRaise(ValueError('Exceeds the limit (4300 digits) for integer string conversion'))
+    return _models.m_str(interp, args, kwargs)
+
+
+M.model(str, _m_str_with_cpython_limit)
+M.trust('str(n) of an int raises ValueError iff abs(n) >= 10**4300 (CPython >= 3.11, default limit); modelled in '
+        'this module only')
+
+
+def _eval_replay_any(model, rf):
+    if 'can be written' in rf.get('obligation', ''):
+        return _EVAL_REPLAY_BIG
+    return _eval_replay(model, rf)
+
+
+_EVAL_REPLAY_BIG = '''
+from exactly_lib.impls.types.integer.evaluate_integer import python_evaluate, NotAnIntegerException
+text = '10**5000'
+try:
+    v = python_evaluate(text)
+except NotAnIntegerException as e:
+    print('NotAnIntegerException: reported as a validation error'); sys.exit(0)
+try:
+    str(v); print('the value can be written'); sys.exit(0)
+except ValueError as e:
+    print('python_evaluate(%r) returns a value that cannot be written: %r -- `exit-code == 10**5000` prints FAIL and '
+          'then ends with a traceback (exit 1) when the failure message is rendered' % (text, e)); sys.exit(1)
+'''
+
 M.contract(P_EVAL + ':python_evaluate', params=dict(s=Str), returns=Int,
-           ensures={'an integer': lambda result: isinstance(result, int)},
+           ensures={'an integer': lambda result: isinstance(result, int),
+                    'the value can be written in decimal notation (it is rendered in messages and traces)':
+                        lambda result: -INT_STR_LIMIT < result and result < INT_STR_LIMIT},
            raises={NotAnIntegerException: {}},       # its docstring: nothing else
-           raises_only=(), replay=_eval_replay)
+           raises_only=(), replay=_eval_replay_any)
 
 NOT_AN_INTEGER = Inst(NotAnIntegerException, value_string=Str, python_exception_message=Opt(Str))
 # (the shape of the exception as the callers of python_evaluate see it)
@@ -79,7 +123,10 @@ M.contract('exactly_lib.common.report_rendering.text_docs:major_blocks_of_string
            params=dict(s=Str), returns=Any_)
 M.trust('text_docs.major_blocks_of_string_lines(str) returns a renderer (splits the string into lines; total)')
 
+M.assume('custom integer validators are applied to values that python_evaluate returned (integer_sdv / integer_ddv '
+         'obtain every value from it): values that can be written in decimal notation')
 M.contract('exactly_lib.impls.types.integer.parse_integer:validator_for_non_negative', params=dict(actual=Int),
+           requires=lambda actual: -INT_STR_LIMIT < actual and actual < INT_STR_LIMIT,
            ensures={'an error text iff negative': lambda actual, result: (result is None) == (actual >= 0)},
            raises_only=())
 
@@ -630,3 +677,120 @@ M.contract('exactly_lib.processing.processors:_Parser.apply',
                               document_exceptions.FileAccessError)},
            },
            raises_only=())
+
+
+# ------------------------------------------------------------------------------ wrong symbol types
+# "wrong symbol types ... are reported as VALIDATION_ERROR, never as INTERNAL_ERROR": the checking of a reference
+# against its restrictions (direct, indirect, or-restrictions on types with and without string rendering) and the
+# fold over the symbol usages are under contract in C08, each with `raises_only()`.  Those clauses carry C18 as
+# well: this check re-proves them on the current tree.  (After the seeded change C18-s1: a KeyError for symbol
+# types without string rendering.)
+
+def _share_symbol_type_checks():
+    from contracts.common import share_contracts
+    wanted = (':_validate_reference', ':_validate_symbol_reference', ':_validate_symbol_definition',
+              ':validate_symbol_usage', ':validate_symbol_usages',
+              ':ReferenceRestrictionsOnDirectAndIndirect._check_indirect',
+              ':ReferenceRestrictionsOnDirectAndIndirect.check_indirect',
+              ':ReferenceRestrictionsOnDirectAndIndirect.is_satisfied_by',
+              ':OrReferenceRestrictions.is_satisfied_by',
+              ':ArbitraryValueWStrRenderingRestriction.is_satisfied_by', ':ValueTypeRestriction.is_satisfied_by')
+    names = share_contracts('C18', 'contracts.C08_symbols', lambda q: q.endswith(wanted))
+    assert len(set(names)) >= len(wanted) - 1, names
+
+
+M.after_load = _share_symbol_type_checks
+
+
+# ------------------------------------------------------------------------------ messages that are rendered late
+# Error messages are objects that are rendered when the outcome is reported -- outside every handler that turns a
+# mistake into a documented outcome: a message whose rendering raises is an uncaught exception.  The lazily
+# formatted ones (util.str_.str_constructor.FormatPositional / FormatMap) apply `str.format` at that time:
+#  * the format string must not be put together from run-time text (a `{` in the author's text would be read as
+#    a replacement field): a literal, or a name bound to one -- never a concatenation / f-string / call;
+#  * a literal format string of FormatPositional has exactly as many `{}` fields as arguments given.
+# (After the seeded change C18-s2: the Python error text concatenated into the format string.)
+
+@M.check('lazily-formatted-messages')
+def _lazily_formatted_messages(ctx):
+    import ast, os, string
+    from pyvc import REPO_SRC
+    root = os.path.join(REPO_SRC, 'exactly_lib')
+    sites = 0
+    for dirpath, _dirs, files in os.walk(root):
+        for fn in sorted(files):
+            if not fn.endswith('.py'):
+                continue
+            path = os.path.join(dirpath, fn)
+            rel = os.path.relpath(path, root).replace(os.sep, '/')
+            if rel == 'util/str_/str_constructor.py':
+                continue
+            src = open(path, encoding='utf-8').read()
+            if 'FormatPositional' not in src and 'FormatMap' not in src:
+                continue
+            for n in ast.walk(ast.parse(src, path)):
+                if not isinstance(n, ast.Call):
+                    continue
+                f = n.func
+                name = f.attr if isinstance(f, ast.Attribute) else (f.id if isinstance(f, ast.Name) else None)
+                if name not in ('FormatPositional', 'FormatMap') or not n.args:
+                    continue
+                sites += 1
+                fmt = n.args[0]
+                where = '%s:%d' % (rel, n.lineno)
+                ok_kind = isinstance(fmt, (ast.Constant, ast.Name, ast.Attribute)) and \
+                    (not isinstance(fmt, ast.Constant) or isinstance(fmt.value, str))
+                ctx.obligation('%s at %s: the format string is a literal or a name, not text put together at run time'
+                               % (name, where), ok_kind, 'scan', detail={'format_argument': ast.unparse(fmt)[:200]})
+                if isinstance(fmt, ast.Constant) and isinstance(fmt.value, str):
+                    try:
+                        fields = [fld for (_lit, fld, _spec, _conv) in string.Formatter().parse(fmt.value)
+                                  if fld is not None]
+                        well_formed = True
+                    except ValueError:
+                        fields, well_formed = [], False
+                    if name == 'FormatPositional' and not any(isinstance(a, ast.Starred) for a in n.args):
+                        auto = [fld for fld in fields if fld == '']
+                        ok = well_formed and len(auto) == len(fields) and len(auto) == len(n.args) - 1
+                        ctx.obligation('FormatPositional at %s: as many {} fields as arguments' % where, ok, 'scan',
+                                       detail={'fields': len(fields), 'arguments': len(n.args) - 1})
+                    else:
+                        ctx.obligation('%s at %s: the literal format string is well formed' % (name, where),
+                                       well_formed, 'scan')
+    ctx.obligation('the lazily formatted messages of the tree were found', sites >= 20, 'scan', detail={'sites': sites})
+
+
+# ------------------------------------------------------------------------------ glob patterns
+# `path GLOB-PATTERN` / `name GLOB-PATTERN` (file matcher): the pattern is the author's text.  pathlib rejects
+# some patterns when it is asked to match (PurePath.match('') raises ValueError("empty pattern"); so do patterns
+# it regards as invalid); fnmatch accepts every string.  A rejected pattern stems from the text of the test case:
+# at the latest HARD_ERROR.
+from exactly_lib.impls.types.matcher.impls import matches_glob_pattern as _glob
+
+P_GLOB = 'exactly_lib.impls.types.matcher.impls.matches_glob_pattern'
+
+
+class GlobModelPathI(Interface):
+    """a pathlib.Path as the model of the matcher: `match(pattern)` returns a bool or raises ValueError
+    (documented for the empty pattern; unacceptable patterns)"""
+    methods = {'match': Method(returns=Bool, may_raise=(ValueError,))}
+
+
+M.trust('pathlib.PurePath.match(pattern) returns a bool or raises ValueError (empty / unacceptable pattern); '
+        'fnmatch.fnmatch accepts every pattern')
+
+_GLOB_REPLAY = '''
+import pathlib
+from exactly_lib.impls.types.matcher.impls import matches_glob_pattern as g
+from exactly_lib.test_case.hard_error import HardErrorException
+try:
+    print('returned', g._match_path(pathlib.Path('a.txt'), '')); sys.exit(0)
+except HardErrorException:
+    print('HardErrorException: reported as HARD_ERROR'); sys.exit(0)
+except Exception as e:
+    print('the matcher lets', repr(e), 'escape when it is applied (inside main: INTERNAL_ERROR): `exists f : path \\'\\'`')
+    sys.exit(1)
+'''
+
+M.contract(P_GLOB + ':_match_path', params=dict(model=Iface(GlobModelPathI), pattern=Str), returns=Bool,
+           raises={HardErrorException: {}}, raises_only=(), replay=lambda model, rf: _GLOB_REPLAY)
